@@ -319,6 +319,24 @@ def accept_block(run, tier, rng):
         if kind == "rwm" and np.any(captured["f"] != 0):
             run.fail("rwm-factor-nonzero", "RWM applies a proposal correction", kernel=kind)
 
+    # a likelihood that is NaN on part of the cube (0/0, inf - inf in user code): such a proposal has no defined ratio and must be
+    # rejected - no walker may end up carrying a NaN log-likelihood, whatever the uniforms
+    for kind in ("tpcn", "rwm"):
+        nr = np.random.RandomState(rng.randrange(2 ** 31))
+        nw = 40
+        u = np.clip(0.5 + 0.03 * nr.randn(nw, 2), 0.05, 0.95)
+        u[:, 0] = np.minimum(u[:, 0], 0.58)
+        like = lambda X: (np.array([(-0.5 * float(np.sum((v - 0.5) ** 2)) / 0.02) if v[0] < 0.6 else float("nan") for v in X]), None)
+        logl, _ = like(u)
+        r = make_runner(kind, u, logl, [[0.5, 0.5]], [np.eye(2) * 0.05], [4.0], [0] * nw, 1.0, like)
+        np.random.seed(5)
+        with np.errstate(all="ignore"):
+            out = r.run()
+        run.case(key=("accept-nan", kind), nontrivial=True)
+        if np.any(np.isnan(out[2])) or np.any(out[0][:, 0] >= 0.6):
+            run.fail("nan-ratio-accepted", f"{kind}: {int(np.sum(np.isnan(out[2])))} of {nw} walkers moved to points where the likelihood is NaN "
+                     f"(an undefined acceptance ratio must reject)", kernel=kind, seed=5)
+
 
 # ------------------------------------------------------------------ ensemble stationarity
 def ensemble(kind, target, n_walk, seed, periodic=None, reflective=None, n_steps=4):
@@ -418,11 +436,18 @@ def stationarity(run, tier):
         dlt = f(b) - f(a)
         return float(np.mean(dlt) / (np.std(dlt) / math.sqrt(len(dlt)) + 1e-300))
 
+    # the same reflective target shrunk by 3e-4 (standard deviations of 3e-5, covariance entries of 1e-9): correlation is a property of
+    # the matrix, not of the size of its entries
+    sc3 = 3e-4
+    ref3 = dict(draw=lambda nr, n: np.column_stack([np.abs(sc3 * sh * nr.randn(n)), 0.5 + sc3 * s1 * nr.randn(n)]),
+                logl=lambda v: -0.5 * float(v[0] ** 2) / (sc3 * sh) ** 2 - 0.5 * float((v[1] - 0.5) ** 2) / (sc3 * s1) ** 2, mean=[0.0, 0.5],
+                cov=(np.array(cov2) * sc3 ** 2).tolist(), dof=5.0)
     for kind in ("rwm", "tpcn"):
-        for name, t, kw in (("reflective", ref2, dict(reflective=np.array([0]))), ("periodic", per2, dict(periodic=np.array([0])))):
+        for name, t, kw in (("reflective", ref2, dict(reflective=np.array([0]))), ("periodic", per2, dict(periodic=np.array([0]))),
+                            ("reflective-narrow", ref3, dict(reflective=np.array([0])))):
             u0, u1 = ensemble(kind, t, n_walk, 505, n_steps=8, **kw)
             run.case(key=("stationarity-correlated", kind, name), nontrivial=True)
-            if name == "reflective":
+            if name.startswith("reflective"):
                 zs_ = dict(u0=paired(u0, u1, lambda u: u[:, 0]), u1=paired(u0, u1, lambda u: u[:, 1]),
                            cross=paired(u0, u1, lambda u: u[:, 0] * (u[:, 1] - 0.5)))
             else:
